@@ -241,6 +241,11 @@ theorem C03_reuse (opt : Bool) (prev : VecS) (hw : prev.Wf) (data : Bytes) :
 example : parseInto true ⟨[.token 1, .array 3, .end_ 1, .token 9], 3⟩ [0x82, 0x2d, 1, 0, 0x0c, 0, 5, 0, 0, 0]
     = .ok [.token 0x2d82, .i32 5] := rfl
 
+/-- Containers are classified correctly (shared with C06): on every accepted tape an `Object` is a sequence of
+`key value` pairs up to its first `MixedContainer` marker (or its end), every key a plain token (`GSeq`). -/
+theorem C03_object_pairs (opt : Bool) (data : Bytes) (toks : Tape) (h : parse opt data = .ok toks) : GSeq toks :=
+  C06_bin_object_pairs opt data toks h
+
 /-- Payloads (shared with C06): on every accepted tape each key / value token is the decoding of a
 lexeme of the input — strings are slices of the input, numbers its little-endian bytes. -/
 theorem C03_payloads (opt : Bool) (data : Bytes) (toks : Tape) (h : parse opt data = .ok toks) :
